@@ -253,9 +253,24 @@ def case_to_coq(cfg, ops, obs, default_ttl=None, max_idle=None):
     counterpart"""
     routes = []
     steps = []
+    # a stored expiry is known up to the invocation/response window of the operation that set it
+    maxtol = max([ob["t1"] - ob["t0"] for op, ob in zip(ops, obs) if op["op"] not in ("sleep",) and "t0" in ob] + [0]) + 3
     tokmap = {}            # impl token value (hex) -> handle name
     lockkey = {}           # handle -> (d,k)
     allkeys = []
+    lastlock = {}          # (d,k) -> handle of the latest acknowledged Lock
+
+    def tr(dk, val):
+        """a lock token is random: name it by the handle that acquired the key"""
+        if val is None:
+            return None
+        if len(val) == 32 and dk in lastlock:
+            if val not in tokmap:
+                tokmap[val] = lastlock[dk]
+        if val in tokmap:
+            return tokmap[val].encode().hex()
+        return val
+
     for op, ob in zip(ops, obs):
         o = op["op"]
         if o == "keyinfo":
@@ -265,7 +280,7 @@ def case_to_coq(cfg, ops, obs, default_ttl=None, max_idle=None):
         if o in ("sleep", "stats", "scan", "janitor", "compact") or ob.get("r") == "harness:no such lock handle":
             continue
         t0, t1 = ob["t0"], ob["t1"]
-        tol = (t1 - t0) + 3
+        tol = maxtol
         d = hb(op["d"].encode().hex()) if op.get("d") else None
         r = ob.get("r")
         coqop = None
@@ -275,7 +290,7 @@ def case_to_coq(cfg, ops, obs, default_ttl=None, max_idle=None):
         elif o == "get":
             coqop = "COp (DGet %s %s)" % (d, hb(op["k"]))
             if r == "ok":
-                coqobs = "BRes (RVal %s %s)" % (hb(ob["val"]), cZ(ob.get("ttl", 0)))
+                coqobs = "BRes (RVal %s %s)" % (hb(tr((op["d"], op["k"]), ob["val"])), cZ(ob.get("ttl", -1)))
         elif o in ("del", "mdel"):
             ks = [op["k"]] if o == "del" else op["ks"]
             coqop = "COp (DDel %s %s)" % (d, clist(hb(k) for k in ks))
@@ -286,7 +301,8 @@ def case_to_coq(cfg, ops, obs, default_ttl=None, max_idle=None):
         elif o == "getput":
             coqop = "COp (DGetPut %s %s %s)" % (d, hb(op["k"]), hb(op["v"]))
             if r == "ok":
-                coqobs = "BRes (ROld %s)" % copt(hb(ob["old"]) if ob.get("old") is not None else None)
+                old = tr((op["d"], op["k"]), ob.get("old"))
+                coqobs = "BRes (ROld %s)" % copt(hb(old) if old is not None else None)
         elif o in ("incr", "decr"):
             delta = op["delta"] if o == "incr" else -op["delta"]
             coqop = "COp (DIncr %s %s %s)" % (d, hb(op["k"]), cZ(delta))
@@ -295,6 +311,8 @@ def case_to_coq(cfg, ops, obs, default_ttl=None, max_idle=None):
         elif o == "lock":
             coqop = "COp (DLock %s %s %s %s)" % (d, hb(op["k"]), hb(op["tok"].encode().hex()), cZ(op.get("ms", 0)))
             lockkey[op["tok"]] = (op["d"], op["k"])
+            if r == "ok":
+                lastlock[(op["d"], op["k"])] = op["tok"]
         elif o in ("unlock", "lease"):
             if op.get("forge"):
                 dk = (op["d"], op["k"])
@@ -316,14 +334,9 @@ def case_to_coq(cfg, ops, obs, default_ttl=None, max_idle=None):
             coqop = "CDump %s %s" % (d, hb(op["k"]))
             items = []
             for c in sorted(ob.get("copies", []), key=lambda c: (c["m"], c["kind"] == "b")):
-                val = c["val"]
-                # a lock token is random: name it by the handle that holds the key
-                for h, dk in lockkey.items():
-                    if dk == (op["d"], op["k"]) and len(val) == 32:
-                        if val not in tokmap:
-                            tokmap[val] = h
-                if val in tokmap:
-                    val = tokmap[val].encode().hex()
+                if c["ttl"] != 0 and c["ttl"] <= t0:
+                    continue        # expired: may or may not have been evicted yet
+                val = tr((op["d"], op["k"]), c["val"])
                 items.append("(%s, %s, %s, %s)" % (cnat(c["m"]), cbool(c["kind"] == "b"), hb(val), cZ(c["ttl"])))
             coqobs = "BCopies %s" % clist(items)
         else:
@@ -509,6 +522,8 @@ def check_semantics_locks(sc, obs, default_ttl=None):
             exp = ref.step(op, ob)
             # a lock key read through get: value is a random token
             if o == "get" and exp and exp.get("r") == "ok" and exp.get("val", "").startswith("tok:".encode().hex()):
+                exp = {"r": "ok"}
+            if o == "getput" and exp and (exp.get("old") or "").startswith("tok:".encode().hex()):
                 exp = {"r": "ok"}
             msg = compare_obs(op, ob, exp)
             if msg:
